@@ -284,7 +284,7 @@ func warmAfterHistory(c *Ctx, variant string) {
 				for i := range minAlloc {
 					minAlloc[i] = ^uint64(0)
 				}
-				var shortAllocs uint64
+				shortAllocs := ^uint64(0)
 				for r := 0; r < rounds; r++ {
 					zerolog.VerifResetPools()
 					short(lg.l) // a warm logger to begin with
@@ -292,7 +292,9 @@ func warmAfterHistory(c *Ctx, variant string) {
 					for k := 0; k < rewarm; k++ {
 						short(lg.l)
 					}
-					shortAllocs = mallocsOf(func() { short(lg.l) })
+					if n := mallocsOf(func() { short(lg.l) }); n < shortAllocs {
+						shortAllocs = n
+					}
 					for i := range probes {
 						w.last = 0
 						n := mallocsOf(func() { probes[i].f(lg.l) })
